@@ -136,8 +136,10 @@ def evaluate(P, cases, res, drv, model_ok=True):
         if model_ok:
             chk = prof == "debug"
             try:
-                for i, detail in P.correspond(cases, traces, prof, lambda lines: run.run_model(drv, chk, lines)):
-                    mism.append((i, prof, detail))
+                # cases flagged "nomodel" (inputs on which the extracted model is quadratic) are judged by the checkers alone
+                idx = [i for i, c in enumerate(cases) if not c.meta.get("nomodel")]
+                for j, detail in P.correspond([cases[i] for i in idx], [traces[i] for i in idx], prof, lambda lines: run.run_model(drv, chk, lines)):
+                    mism.append((idx[j], prof, detail))
             except build.BuildError as ex:
                 # the extracted model itself failed (resource exhaustion on a huge case): the checkers still judge the implementation
                 MODEL_FAILURES.append({"kind": "model-run", "what": ex.what, "log": ex.log[-500:]})
@@ -310,12 +312,13 @@ def main(P, tier, replay=None):
         tr = res["debug"][i]
         if P.nontrivial(c, run.ints(tr)):
             distinct.add(hashlib.sha1((c.line + "|" + tr).encode()).digest())
-    nlem = audit.count_obligations(P.coq_targets)
+    nlem = audit.count_obligations(P.coq_targets + ["GenEq/%s.vo" % n for n in P.gen_scope])
+    broken_eq = sum(1 for v in ctx.get("tie1", {}).values() if v is not None)
     sample_idx = sorted(set([0, len(cases) // 2, len(cases) - 1])) if cases else []
     ev = {
         "property_id": pid, "tier": tier, "seed": seed, "level": P.level,
         "coverage": {
-            "obligations": nlem["total"], "discharged": nlem["total"] if proof_ok else 0,
+            "obligations": nlem["total"], "discharged": (nlem["total"] - broken_eq) if proof_ok else 0,
             "obligation_files": nlem["files"],
             "checker_cmd": "make -C /verif/coq -j16 " + " ".join(P.coq_targets) + "  (coqc 8.16.1, full .vo build)",
             "trusted_base": TRUSTED_BASE + P.extra_assumptions,
